@@ -111,7 +111,7 @@ class TrackerRecord:
         return self.max_depth == imax(old.self.max_depth, depth)
 
 
-@contract(PY + "_is_elif_chain", props=["C01"], types=dict(orelse=SeqOf(PyNode)), returns=Bool)
+@contract(PY + "_is_elif_chain", props=["C01", "C13"], types=dict(orelse=SeqOf(PyNode)), returns=Bool)
 class IsElifChain:
     def value(orelse):
         return is_elif_position(orelse)
